@@ -16,7 +16,7 @@
     mask, proved equal to [mod 2^32] / [mod 2^64] in RNG_Proofs).  The generator state is a value;
     every sampler returns (result, new state). *)
 From TU Require Import Base.
-Open Scope N_scope.
+Local Open Scope N_scope.
 
 Definition p32 : N := 4294967296.
 Definition p64 : N := 18446744073709551616.
